@@ -23,8 +23,11 @@ func (h *Hist) genConfigs() {
 	if focus == "dry" {
 		h.globalDry = r.chance(25)
 	}
-	if focus == "rotate" {
+	if focus == "rotate" || focus == "fleet" {
 		h.globalDry = false
+	}
+	if focus == "fleet" {
+		ng = 1 // fleet scale-ups take seconds of real time: keep taint stamps of other groups out of the same scan
 	}
 	useDefault := ng > 1 && r.chance(40)
 	for i := 0; i < ng; i++ {
@@ -70,6 +73,17 @@ func (h *Hist) genConfigs() {
 		}
 		if r.chance(15) {
 			o.AWS.ResourceTagging = true
+		}
+		if focus == "fleet" {
+			// launch-template mode: scale-ups go through CreateFleet + readiness polling (1 s ticker) + AttachInstances
+			o.AWS.LaunchTemplateID = "lt-1"
+			o.AWS.LaunchTemplateVersion = r.pick("1", "$Latest")
+			o.AWS.Lifecycle = r.pick("", "on-demand", "spot")
+			o.AWS.FleetInstanceReadyTimeout = r.pick("2s", "3s")
+			if r.chance(40) {
+				o.AWS.InstanceTypeOverrides = []string{"m5.large", "c5.large"}[:r.rng(1, 2)]
+			}
+			o.DryMode = false
 		}
 		h.cfgs = append(h.cfgs, o)
 		h.pcfgs = append(h.pcfgs, protoCfg(o))
@@ -390,6 +404,9 @@ func (h *Hist) randomEvent() string {
 	if focus == "cooldown" && r.chance(45) {
 		ev = r.pickI(10, 11, 12, 21, 4, 5, 6) // advances around the cool-down, load changes, taints and cordons inside the window
 	}
+	if focus == "fleet" && r.chance(55) {
+		ev = r.pickI(21, 21, 13, 10, 11, 5, 0) // mostly load (high), deliveries, time; some force taints
+	}
 	switch ev {
 	case 0, 1, 2, 3:
 		p, j := h.pctChoice(gi)
@@ -554,7 +571,7 @@ func (h *Hist) randomEvent() string {
 		}
 	default:
 		p, j := h.pctChoice(gi)
-		if focus == "cooldown" && r.chance(60) {
+		if (focus == "cooldown" || focus == "fleet") && r.chance(60) {
 			p, j = o.ScaleUpThresholdPercent+r.rng(20, 200), 0
 		}
 		h.setLoad(gi, p, j)
@@ -614,6 +631,19 @@ func (h *Hist) runHistory(scans int) (bool, string) {
 		}
 		if faults[0] && !slowOK {
 			delete(faults, 0)
+		}
+		if focus == "fleet" {
+			h.aws.ec2.fleetSplit = h.r.pickI(1, 1, 2)
+			h.aws.ec2.fleetMode = h.r.pick("ok", "ok", "ok", "ok", "some+err", "none+err", "none")
+			h.aws.ec2.notReady = map[int]bool{}
+			switch h.r.intn(6) {
+			case 0:
+				h.aws.ec2.notReady[0] = true
+			case 1:
+				for t := 0; t < 5; t++ {
+					h.aws.ec2.notReady[t] = true
+				}
+			}
 		}
 		outcome, err := h.scan(faults, failDesc)
 		if err != nil {
